@@ -6,17 +6,26 @@ Open Scope N_scope.
 Section C01_statements.
 Context {D : Type}.
 
-Check (VF.Properties.C01.C01_lex_next_no_panic : forall l, exists s, lex_next l = Val s).
-Check (VF.Properties.C01.C01_lex_progress : forall l t l', lex_next l = Val (STok t l') ->
-  (length (chars l') < length (chars l))%nat).
-Check (VF.Properties.C01.C01_lex_total : forall input, exists ts, tokenize input = Val ts).
-Check (VF.Properties.C01.C01_lex_params_total : forall input, exists ts, tokenize_params input = Val ts).
-Check (VF.Properties.C01.C01_tokenize_shape : forall l ts, tokenize_from l = Val ts ->
-  exists toks, ts = map IOk toks \/ exists e, ts = map IOk toks ++ [IErr e]).
-Check (VF.Properties.C01.C01_run_tokens_total : forall (root : tree D) toks d f, exists r, run_tokens root toks d f = Val r).
-Check (VF.Properties.C01.C01_run_total : forall (root : tree D) input d f, exists r, run root input d f = Val r).
-Check (VF.Properties.C01.C01_pull_only_data : forall toks t r,
-  next_optional_token toks = (Got t, r) -> is_data t = true).
-Check (VF.Properties.C01.C01_pull_req_only_data : forall toks t r,
-  next_token toks = (Got t, r) -> is_data t = true).
+Goal forall l, exists s, lex_next l = Val s.
+Proof. apply VF.Properties.C01.C01_lex_next_no_panic. Qed.
+Goal forall l t l', lex_next l = Val (STok t l') ->
+  (length (chars l') < length (chars l))%nat.
+Proof. apply VF.Properties.C01.C01_lex_progress. Qed.
+Goal forall input, exists ts, tokenize input = Val ts.
+Proof. apply VF.Properties.C01.C01_lex_total. Qed.
+Goal forall input, exists ts, tokenize_params input = Val ts.
+Proof. apply VF.Properties.C01.C01_lex_params_total. Qed.
+Goal forall l ts, tokenize_from l = Val ts ->
+  exists toks, ts = map IOk toks \/ exists e, ts = map IOk toks ++ [IErr e].
+Proof. apply VF.Properties.C01.C01_tokenize_shape. Qed.
+Goal forall (root : tree D) toks d f, exists r, run_tokens root toks d f = Val r.
+Proof. apply VF.Properties.C01.C01_run_tokens_total. Qed.
+Goal forall (root : tree D) input d f, exists r, run root input d f = Val r.
+Proof. apply VF.Properties.C01.C01_run_total. Qed.
+Goal forall toks t r,
+  next_optional_token toks = (Got t, r) -> is_data t = true.
+Proof. apply VF.Properties.C01.C01_pull_only_data. Qed.
+Goal forall toks t r,
+  next_token toks = (Got t, r) -> is_data t = true.
+Proof. apply VF.Properties.C01.C01_pull_req_only_data. Qed.
 End C01_statements.
